@@ -55,7 +55,8 @@ IdlePass == [ active |-> FALSE, actor |-> "", target |-> "", oid |-> "", ouid |-
               finRemoved |-> FALSE,
               listed |-> <<>>, hasList |-> FALSE,       \* deployment controller: the ObjectSets it listed
               clash |-> "",
-              gone404 |-> {} ]                           \* keys whose Delete was answered with NotFound                             \* deployment controller: key whose Create hit AlreadyExists
+              gone404 |-> {},
+              created |-> FALSE ]                        \* deployment controller: this pass created an ObjectSet                           \* keys whose Delete was answered with NotFound                             \* deployment controller: key whose Create hit AlreadyExists
 
 Init == /\ l = 1
         /\ store = [ k \in Keys |-> Absent ]
@@ -273,7 +274,8 @@ TrWrite ==
                                   ELSE hist.creates ]
        /\ pass' = [ pass EXCEPT
              ![p].calls = @ + 1,
-             ![p].apiErr = @ \/ ~ok,
+             ![p].apiErr = @ \/ (~ok /\ ~(IsDepActor(pr.actor) /\ E.ev = "Create" /\ E.res = "AlreadyExists")),
+             ![p].created = @ \/ (IsDepActor(pr.actor) /\ E.ev = "Create" /\ ok /\ ~E.dry),
              ![p].dryok = IF E.dry /\ ok THEN @ \cup {k} ELSE @,
              ![p].dryseen = IF E.dry THEN @ \cup {k} ELSE @,
              ![p].writes = IF ~E.dry /\ Changed(E) /\ k # pr.target THEN Append(@, k) ELSE @,
@@ -621,13 +623,17 @@ Violating(k) ==
     \/ c \in {"unknownAPI", "presetOwner", "dryReject"}
     \/ c \in {"foreignNS", "clusterNoNS", "clusterOwnNS"} /\ scen.flavour \in {"os", "ph"}
 
+\* the dry run of these objects is answered by a server-side error: not accepted, but no verdict about the object either
+DryErr(k) == ClassOf(k) \in {"dry500", "dry429"}
+
 Inv_C11_NoWriteIfViolating ==
     (IsRow /\ ObjReq /\ Rollout(PR) /\ Changed(W))
-    => /\ \A k \in Range(PhaseObjKeys(PR, PhaseOfObj(PR, W.key))) : ~Violating(k)
+    => /\ \A k \in Range(PhaseObjKeys(PR, PhaseOfObj(PR, W.key))) : ~Violating(k) /\ ~DryErr(k)
        /\ ~scen.hasDup
 
 FirstBad(pr) == { j \in 1..NPhases(pr) : (\E k \in Range(PhaseObjKeys(pr, j)) : Violating(k))
-                                         /\ \A i \in 1..(j - 1) : \A k \in Range(PhaseObjKeys(pr, i)) : ~Violating(k) }
+                                         /\ (\A k \in Range(PhaseObjKeys(pr, j)) : ~DryErr(k))
+                                         /\ \A i \in 1..(j - 1) : \A k \in Range(PhaseObjKeys(pr, i)) : ~Violating(k) /\ ~DryErr(k) }
 
 Inv_C11_ViolationReported ==
     (IsRow /\ PassEnded /\ PE.hasSnap /\ Rollout(PE) /\ ~PE.apiErr /\ (scen.hasDup \/ FirstBad(PE) # {}))
@@ -685,6 +691,23 @@ Inv_C07_NoReuse ==
            c  == store[pr.clash] IN
        (c.exists /\ (c.cr.lifecycle = "Archived" \/ c.cr.tmplHash # pr.snap.cr.tmplHash))
           => (pr.statusWritten /\ pr.status.cr.collisions = pr.snap.cr.collisions + 1)
+
+\* "whenever the template is not matched by the newest ObjectSet ... a new ObjectSet is created": an error-free pass that
+\* saw every revision reported and no current revision (the newest set's hash annotation differs from the template
+\* hash this pass computed) either created the ObjectSet, or hit a name clash and bumped the collision counter, or the
+\* clash is with the just-created, not-yet-listed newest ObjectSet of the same spec (the slow-cache case).
+Inv_C07_ProgressOnMismatch ==
+    (lw.valid /\ W.ev = "PassEnd" /\ IsDepActor(W.actor) /\ W.res = "ok" /\ pass[W.actor].hasSnap /\ pass[W.actor].hasList
+       /\ ~pass[W.actor].apiErr /\ pass[W.actor].statusWritten)
+    => LET pr == pass[W.actor]
+           noCurrent == pr.listed = <<>> \/ \A i \in DOMAIN pr.listed :
+                            pr.listed[i].cr.revision = MaxRev(pr.listed) => pr.listed[i].cr.hash # pr.status.cr.hash IN
+       (~pr.snap.cr.paused /\ pr.snap.cr.phases # <<>> /\ (\A i \in DOMAIN pr.listed : pr.listed[i].cr.revision # 0) /\ noCurrent
+          /\ pr.status.cr.collisions = pr.snap.cr.collisions)
+       => \/ pr.created
+          \/ /\ pr.clash # "" /\ store[pr.clash].exists
+             /\ store[pr.clash].cr.tmplHash = pr.snap.cr.tmplHash /\ store[pr.clash].cr.lifecycle # "Archived"
+             /\ (store[pr.clash].cr.revision = 0 \/ store[pr.clash].cr.revision > MaxRev(pr.listed))
 
 ---------------------------------------------------------------------------
 (* C08 rollouts never archive or delete what is still serving *)
